@@ -21,8 +21,10 @@ the very object that is in the tree); see `notes/C14.md`.
 
 Mirrored code: `Transformer.visit_Node`, `visit_ScopedNode` (value level: same as `visit_Node`
 except that without `rebuild_scopes` the visited object itself is `_update`d), `visit_tuple`
-(`_inject_tuple_mapping` first, then the visits, then the filter `i is not None and as_tuple(i)` —
-which also drops an *empty tuple*, the case body of a `MultiConditional` that became empty),
+(`_inject_tuple_mapping` first, then the visits, then the filter: `None` results are dropped; the
+result for an element that is itself a tuple — a case body in `MultiConditional.bodies` — keeps its
+position even when empty, since the `fix:` commit recorded in `known_findings.json`; before it the
+empty body was dropped, see `LokiModel/Findings/C14.lean`),
 `Transformer._rebuild` (`inplace` → `_update`), `Transformer.visit` (the `rebuilt` record),
 `NestedTransformer.visit_Node/visit_tuple`.  Python's unbounded recursion is modelled with fuel
 (`Err.fuel` ↔ `RecursionError`); `handle._rebuild` on a tuple ↔ `Err.attr` (`AttributeError`).
@@ -197,16 +199,6 @@ def visitKidsWith (vl : List Node → Except Err LRes) : List (List Node) → Ex
       | .error e => .error e
       | .ok rs => .ok (r :: rs)
 
-/-- `visit_tuple` applied to `bodies` (a tuple of tuples): the final filter drops the bodies that came
-back empty; `else_body` (last) is a direct child and is kept -/
-def dropEmptyBodies : List (List Node) → List (List Node)
-  | [] => []
-  | [e] => [e]
-  | b :: bs => if b = [] then dropEmptyBodies bs else b :: dropEmptyBodies bs
-
-def rebuildKids (k : Kind) (ks : List (List Node)) : List (List Node) :=
-  if k = .mcond then dropEmptyBodies ks else ks
-
 /-- is the returned object the visited object itself (`_update`) rather than a fresh one (`_rebuild`)? -/
 def sameObject (cfg : Cfg) (k : Kind) : Bool := cfg.inplace || (k.isScoped && !cfg.rebuildScopes)
 
@@ -215,7 +207,7 @@ def descendWith (cfg : Cfg) (vl : List Node → Except Err LRes) (o : Node) : Ex
   match visitKidsWith vl o.kids with
   | .error e => .error e
   | .ok ls =>
-    let r := Node.mk o.kind o.lbl (rebuildKids o.kind (ls.map (·.res)))
+    let r := Node.mk o.kind o.lbl (ls.map (·.res))
     .ok { res := some r,
           post := if sameObject cfg o.kind then r else Node.mk o.kind o.lbl (ls.map (·.post)),
           recd := ls.flatMap (·.recd) ++ (if sameObject cfg o.kind then [] else [o]) }
@@ -261,7 +253,7 @@ def nestedNode (cfg : Cfg) (m : Mapper) : Nat → Node → Except Err VRes
       | .error e => .error e
       | .ok ls =>
         let l := if o.kind.payloadTraversable then o.lbl else h.lbl
-        let r := Node.mk h.kind l (rebuildKids o.kind (ls.map (·.res)))
+        let r := Node.mk h.kind l (ls.map (·.res))
         -- the object that is updated in place is the *handle*; it is the visited object only when unmapped
         let same := sameObject cfg o.kind && !mapped
         .ok { res := some r,
